@@ -537,10 +537,10 @@ theorem ti_handleAckTimer (h : TI s.timer now) (b : Bool) : TI (handleAckTimer s
   simp only [handleAckTimer]
   repeat' split
   all_goals ti_gor [ti_abandon, ti_handleFault, ti_shutdown]
-theorem ti_handleTimeout (h : TI s.timer now) : TI (handleTimeout s now).timer now := by
+theorem ti_handleTimeoutMain (h : TI s.timer now) : TI (handleTimeoutMain s now).timer now := by
   have h1 : TI (handleInactivity (handleDelayed s now) now).1.timer now :=
     ti_handleInactivity (by rw [timer_handleDelayed]; exact h)
-  simp only [handleTimeout]
+  simp only [handleTimeoutMain]
   generalize (handleInactivity (handleDelayed s now) now) = r at h1
   repeat' split
   all_goals first
@@ -548,6 +548,12 @@ theorem ti_handleTimeout (h : TI s.timer now) : TI (handleTimeout s now).timer n
     | exact h1
     | (apply ti_handleAckTimer; ti_gor [])
     | ti_gor []
+
+
+theorem ti_handleTimeout (h : TI s.timer now) : TI (handleTimeout s now).timer now := by
+  simp only [handleTimeout, unackFinishedLimit]
+  repeat' split
+  all_goals ti_gor [ti_shutdown, ti_handleTimeoutMain]
 
 end Cfdp.Recv
 
